@@ -69,3 +69,303 @@ impl<T> LinkedList<T> {
         None
     }
 }
+
+// ===========================================================================
+// C20 (list part): the list behaves as a deque with O(1) removal of a member.
+// ===========================================================================
+pub(crate) mod verif_list {
+    use super::*;
+    use crate::verif::common::*;
+
+    pub const K: usize = 5;
+    type N = ListNode<u8>;
+
+    pub const W_REMOVE_MIDDLE: u32 = 1; // removed a node that had both neighbours
+    pub const W_DRAIN3: u32 = 2; // drained a list of >= 3 nodes
+    pub const W_REMOVE_NONMEMBER: u32 = 4;
+
+    /// Structural validator + comparison with the model sequence `seq[0..len]` (head first).
+    pub unsafe fn validate(list: &LinkedList<u8>, tab: &[*mut N; K], seq: &[usize; K], len: usize) {
+        assert!(list.verif_len_checked(K) == Some(len), "C20 list: links inconsistent or length differs from the deque model");
+        let mut inlist = [false; K];
+        let mut i = 0;
+        while i < len {
+            // seq[i] is the i-th node from the head = (len-1-i)-th from the tail
+            let pos = list.verif_pos_from_tail(tab[seq[i]] as *const N, K);
+            assert!(pos == Some(len - 1 - i), "C20 list: order differs from the deque model");
+            inlist[seq[i]] = true;
+            i += 1;
+        }
+        i = 0;
+        while i < K {
+            if !inlist[i] {
+                assert!((*tab[i]).verif_unlinked(), "C20 list: a node outside the list still carries links");
+            }
+            i += 1;
+        }
+        assert!(list.is_empty() == (len == 0), "C20 list: is_empty() differs from the deque model");
+        match list.peek_first() {
+            Some(n) => assert!(len > 0 && n as *const N == tab[seq[0]] as *const N, "C20 list: peek_first differs from the model"),
+            None => assert!(len == 0, "C20 list: peek_first is None on a non-empty list"),
+        }
+        match list.peek_last() {
+            Some(n) => assert!(len > 0 && n as *const N == tab[seq[len - 1]] as *const N, "C20 list: peek_last differs from the model"),
+            None => assert!(len == 0, "C20 list: peek_last is None on a non-empty list"),
+        }
+    }
+
+    fn idx_of(tab: &[*mut N; K], p: *const N) -> usize {
+        let mut i = 0;
+        while i < K {
+            if tab[i] as *const N == p { return i; }
+            i += 1;
+        }
+        K
+    }
+
+    /// One operation on (list, model); shared by E-STEP and E-HIST. Returns witness bits.
+    pub unsafe fn apply<S: Src>(s: &mut S, list: &mut LinkedList<u8>, tab: &[*mut N; K], seq: &mut [usize; K], len: &mut usize, kmax: usize) -> u32 {
+        let op = s.below(6);
+        let mut bits = 0;
+        let mut member = [false; K];
+        let mut i = 0;
+        while i < *len { member[seq[i]] = true; i += 1; }
+        match op {
+            0 => {
+                // add_front(non-member)
+                let t = s.below(kmax as u8) as usize;
+                s.assume(!member[t]);
+                list.add_front(&mut *tab[t]);
+                let mut j = *len;
+                while j > 0 { seq[j] = seq[j - 1]; j -= 1; }
+                seq[0] = t;
+                *len += 1;
+            }
+            1 => {
+                let r = list.remove_first().map(|n| n as *mut N as *const N);
+                if *len == 0 {
+                    assert!(r.is_none(), "C20 list: remove_first on an empty list returned a node");
+                } else {
+                    assert!(r == Some(tab[seq[0]] as *const N), "C20 list: remove_first did not return the head");
+                    let mut j = 0;
+                    while j + 1 < *len { seq[j] = seq[j + 1]; j += 1; }
+                    *len -= 1;
+                }
+            }
+            2 => {
+                let r = list.remove_last().map(|n| n as *mut N as *const N);
+                if *len == 0 {
+                    assert!(r.is_none(), "C20 list: remove_last on an empty list returned a node");
+                } else {
+                    assert!(r == Some(tab[seq[*len - 1]] as *const N), "C20 list: remove_last did not return the tail");
+                    *len -= 1;
+                }
+            }
+            3 => {
+                // remove(any node, member or not)
+                let t = s.below(kmax as u8) as usize;
+                let r = list.remove(&mut *tab[t]);
+                assert!(r == member[t], "C20 list: remove() result differs from membership");
+                if member[t] {
+                    let mut j = 0;
+                    let mut k = 0;
+                    let mut at = 0;
+                    while j < *len {
+                        if seq[j] != t { seq[k] = seq[j]; k += 1; } else { at = j; }
+                        j += 1;
+                    }
+                    if at > 0 && at + 1 < *len { bits |= W_REMOVE_MIDDLE; }
+                    *len -= 1;
+                } else {
+                    bits |= W_REMOVE_NONMEMBER;
+                }
+            }
+            4 => {
+                let mut n = 0usize;
+                let seqc = *seq;
+                let l0 = *len;
+                list.drain(|node| {
+                    assert!(n < l0 && node as *mut N as *const N == tab[seqc[n]] as *const N, "C20 list: drain order differs from head-to-tail");
+                    assert!(node.verif_unlinked(), "C20 list: drained node still carries links");
+                    n += 1;
+                });
+                assert!(n == l0, "C20 list: drain visited a different number of nodes");
+                if l0 >= 3 { bits |= W_DRAIN3; }
+                *len = 0;
+            }
+            _ => {
+                let mut n = 0usize;
+                let seqc = *seq;
+                let l0 = *len;
+                list.reverse_drain(|node| {
+                    assert!(n < l0 && node as *mut N as *const N == tab[seqc[l0 - 1 - n]] as *const N, "C20 list: reverse_drain order differs from tail-to-head");
+                    assert!(node.verif_unlinked(), "C20 list: drained node still carries links");
+                    n += 1;
+                });
+                assert!(n == l0, "C20 list: reverse_drain visited a different number of nodes");
+                if l0 >= 3 { bits |= W_DRAIN3; }
+                *len = 0;
+            }
+        }
+        bits
+    }
+
+    /// E-HIST: up to n operations from the empty list over kmax nodes. Every operation's result is compared
+    /// with the deque model; the structural validator runs after every operation natively (`every`), and
+    /// once after a symbolically chosen stopping point in the model (one validator copy in the formula
+    /// instead of n+1; every prefix is still covered because the stop is symbolic).
+    pub fn hist<S: Src>(s: &mut S, n: usize, kmax: usize, every: bool) -> u32 {
+        let mut n0 = ListNode::new(0u8);
+        let mut n1 = ListNode::new(1u8);
+        let mut n2 = ListNode::new(2u8);
+        let mut n3 = ListNode::new(3u8);
+        let mut n4 = ListNode::new(4u8);
+        let tab: [*mut N; K] = [&mut n0, &mut n1, &mut n2, &mut n3, &mut n4];
+        let mut list = LinkedList::<u8>::new();
+        let mut seq = [0usize; K];
+        let mut len = 0usize;
+        let mut bits = 0;
+        let mut step = 0;
+        unsafe {
+            while step < n && !s.exhausted() {
+                step += 1;
+                if s.u8() & 1 == 1 { break; }
+                bits |= apply(s, &mut list, &tab, &mut seq, &mut len, kmax);
+                if every { validate(&list, &tab, &seq, len); }
+            }
+            validate(&list, &tab, &seq, len);
+        }
+        s.reached(bits);
+        bits
+    }
+
+    /// Constructive step: build ANY list over <= kmax nodes through real add_front calls (every well-formed
+    /// list is reachable that way), then one arbitrary operation. A counterexample is a genuine history from
+    /// the empty list and replays natively.
+    pub fn buildstep<S: Src>(s: &mut S, kmax: usize) -> u32 {
+        let mut n0 = ListNode::new(0u8);
+        let mut n1 = ListNode::new(1u8);
+        let mut n2 = ListNode::new(2u8);
+        let mut n3 = ListNode::new(3u8);
+        let mut n4 = ListNode::new(4u8);
+        let tab: [*mut N; K] = [&mut n0, &mut n1, &mut n2, &mut n3, &mut n4];
+        let mut list = LinkedList::<u8>::new();
+        let mut seq = [0usize; K];
+        let mut len = 0usize;
+        let want = s.below(kmax as u8 + 1) as usize;
+        let mut used = [false; K];
+        let mut bits = 0;
+        unsafe {
+            while len < want {
+                let t = s.below(kmax as u8) as usize;
+                s.assume(!used[t]);
+                used[t] = true;
+                list.add_front(&mut *tab[t]);
+                let mut j = len;
+                while j > 0 { seq[j] = seq[j - 1]; j -= 1; }
+                seq[0] = t;
+                len += 1;
+            }
+            validate(&list, &tab, &seq, len);
+            bits |= apply(s, &mut list, &tab, &mut seq, &mut len, kmax);
+            validate(&list, &tab, &seq, len);
+        }
+        s.reached(bits);
+        bits
+    }
+
+    #[no_mangle]
+    pub fn fi_verif_replay_list(name: &str, cfg: u32, _p: u32, s: &mut ScriptSrc<'_>) -> bool {
+        match name {
+            "list_buildstep" => { buildstep(s, if cfg == 0 { K } else { cfg as usize }); }
+            "list_hist" => { hist(s, 64, if cfg == 0 { K } else { cfg as usize }, true); }
+            _ => return false,
+        }
+        true
+    }
+
+    #[cfg(kani)]
+    mod proofs {
+        use super::*;
+
+        /// E-STEP: arbitrary well-formed list over a subset of the K nodes (links written directly from a
+        /// symbolic membership + permutation), one operation, validator + model afterwards.
+        fn step(kmax: usize) {
+            let mut n0 = ListNode::new(0u8);
+            let mut n1 = ListNode::new(1u8);
+            let mut n2 = ListNode::new(2u8);
+            let mut n3 = ListNode::new(3u8);
+            let mut n4 = ListNode::new(4u8);
+            let tab: [*mut N; K] = [&mut n0, &mut n1, &mut n2, &mut n3, &mut n4];
+            let mut list = LinkedList::<u8>::new();
+            // symbolic sequence of distinct nodes
+            let len: usize = kani::any();
+            kani::assume(len <= kmax);
+            let mut seq: [usize; K] = kani::any();
+            let mut i = 0;
+            while i < K {
+                kani::assume(seq[i] < kmax);
+                let mut j = 0;
+                while j < i {
+                    if i < len { kani::assume(seq[i] != seq[j]); }
+                    j += 1;
+                }
+                i += 1;
+            }
+            unsafe {
+                i = 0;
+                while i < len {
+                    let me = tab[seq[i]];
+                    (*me).prev = if i > 0 { NonNull::new(tab[seq[i - 1]]) } else { None };
+                    (*me).next = if i + 1 < len { NonNull::new(tab[seq[i + 1]]) } else { None };
+                    i += 1;
+                }
+                if len > 0 {
+                    list.head = NonNull::new(tab[seq[0]]);
+                    list.tail = NonNull::new(tab[seq[len - 1]]);
+                }
+                let mut len = len;
+                validate(&list, &tab, &seq, len); // sanity of the builder
+                let bits = apply(&mut KaniSrc, &mut list, &tab, &mut seq, &mut len, kmax);
+                validate(&list, &tab, &seq, len);
+                kani::cover!(bits & W_REMOVE_MIDDLE != 0, "W list step: middle node removed");
+                kani::cover!(bits & W_DRAIN3 != 0, "W list step: drained >= 3 nodes");
+                kani::cover!(bits & W_REMOVE_NONMEMBER != 0, "W list step: remove(non-member)");
+            }
+        }
+        #[kani::proof]
+        #[kani::unwind(7)]
+        fn list_step_k4() { step(4) }
+        #[kani::proof]
+        #[kani::unwind(7)]
+        fn list_step_k5() { step(5) }
+
+        #[kani::proof]
+        #[kani::unwind(7)]
+        fn list_buildstep_k4() { let b = buildstep(&mut KaniSrc, 4); kani::cover!(b & W_REMOVE_MIDDLE != 0, "W list buildstep: middle node removed"); }
+        #[kani::proof]
+        #[kani::unwind(7)]
+        fn list_buildstep_k5() { let b = buildstep(&mut KaniSrc, 5); kani::cover!(b & W_DRAIN3 != 0, "W list buildstep: drained >= 3 nodes"); }
+        #[kani::proof]
+        #[kani::unwind(7)]
+        fn list_witness_buildstep_k4() {
+            let b = buildstep(&mut KaniSrc, 4);
+            assert!(b & W_REMOVE_MIDDLE == 0, "WITNESS reached");
+        }
+        #[kani::proof]
+        #[kani::unwind(7)]
+        fn list_hist_k3_n5() { let b = hist(&mut KaniSrc, 5, 3, false); kani::cover!(b & W_REMOVE_MIDDLE != 0, "W list hist: middle node removed"); }
+        #[kani::proof]
+        #[kani::unwind(7)]
+        fn list_hist_k4_n6() { let b = hist(&mut KaniSrc, 6, 4, false); kani::cover!(b & W_REMOVE_MIDDLE != 0, "W list hist: middle node removed"); }
+        #[kani::proof]
+        #[kani::unwind(9)]
+        fn list_hist_k5_n8() { let b = hist(&mut KaniSrc, 8, 5, false); kani::cover!(b & W_DRAIN3 != 0, "W list hist: drained >= 3 nodes"); }
+        #[kani::proof]
+        #[kani::unwind(7)]
+        fn list_witness_k4_n5() {
+            let b = hist(&mut KaniSrc, 5, 4, false);
+            assert!(b & W_REMOVE_MIDDLE == 0, "WITNESS reached");
+        }
+    }
+}
